@@ -39,7 +39,7 @@ ALL = A.dtypes_pool()
 BY_SPEC = {d.spec: d for d in ALL}
 # byte-multiplier dtypes are broken as a whole by one recorded mechanism (unit/bit-length confusion);
 # they are exercised by directed cases only so that the defect is counted once
-POOL = [d for d in ALL if d.family != 'bytes']
+POOL = list(ALL)
 NUMERIC = [d for d in POOL if d.numeric()]
 INTS = [d for d in POOL if d.family in ('uint', 'int') and d.width <= 64]
 
